@@ -1,5 +1,6 @@
 CONSTANTS
   Grace = 2
+  MaxAge = 100
   T = 6
   SessLen = 3
   ApiLen = 2
